@@ -120,8 +120,20 @@ func lookupFunc(w *World, home *types.Package, imports []Import, name string) *t
 				return types.NewFunc(v.Pos(), home, name, sg)
 			}
 		}
-		f, _ := obj.(*types.Func)
-		return f
+		if f, _ := obj.(*types.Func); f != nil {
+			return f
+		}
+		// an exported function of a dot-imported package is in the file scope of the setup file
+		for _, im := range imports {
+			if im.Name == "." {
+				if p, err := w.Import(im.Path); err == nil {
+					if f, _ := p.Scope().Lookup(name).(*types.Func); f != nil && f.Exported() {
+						return f
+					}
+				}
+			}
+		}
+		return nil
 	}
 	if len(parts) != 2 {
 		return nil
@@ -629,10 +641,9 @@ func (p *Plan) candidates(src *Source, name string) (getters, fields []*Source, 
 				}
 				if r := p.ResolvePath(src, m.Name()+"()"); r != nil {
 					getters = append(getters, r)
-				} else {
-					// not callable (pointer receiver on a non-addressable value): T-note, treat as loose
-					promoted = true
 				}
+				// else: not callable (pointer receiver on a value that is not addressable - the result of a getter, or a
+				// field of one): no candidate at all; using it would not compile (C01), so nothing is left open here
 			}
 		}
 	}
